@@ -198,9 +198,10 @@ void visitorChecks(const Node &root, const std::string &rootPath, rt::Rng &rng) 
                     v2.restore();
                     if (cwd() != rootPath) return fail("visitor-not-restored", "visitor-reuse", "restore() after the first visit did not return");
                     fs::current_path(dirB);
-                    v2.set(Path(dirA));
+                    bool missingTarget = rng.chance(400);   // the second target may not exist: the visit fails, the visitor must still return to where it was called
+                    v2.set(Path(missingTarget ? dirA + "/no-such-directory" : dirA));
                     v2.visit();
-                    if (cwd() != dirA) return fail("visitor-did-not-enter", "visitor-reuse", "second visit() did not enter");
+                    if (cwd() != (missingTarget ? dirB : dirA)) return fail("visitor-did-not-enter", "visitor-reuse", missingTarget ? "a visit to a missing directory moved the process" : "second visit() did not enter");
                 }
                 ++C.visitorReuses;
                 if (cwd() != dirB) return fail("visitor-not-restored", "visitor-reuse", "a reused visitor returned to '" + esc(cwd()) + "' instead of the directory its second visit started from");
